@@ -16,6 +16,7 @@ import copy
 import importlib
 import json
 import os
+import signal
 import sys
 import traceback
 
@@ -24,6 +25,14 @@ sys.path.insert(0, os.path.dirname(HERE))
 sys.path.insert(0, os.path.join(HERE, 'stubs'))
 REPO = os.environ.get('PYVC_REPO', '/repo')
 sys.path.insert(0, REPO)
+
+
+class _Timeout(BaseException):
+    pass
+
+
+def _on_alarm(signum, frame):
+    raise _Timeout()
 
 
 class _OldLift(ast.NodeTransformer):
@@ -82,11 +91,19 @@ def run(req):
             return {'status': 'precondition_false', 'label': label, 'error': repr(err)}
     exc = None
     result = None
+    signal.signal(signal.SIGALRM, _on_alarm)
+    signal.alarm(int(os.environ.get('PYVC_NATIVE_TIMEOUT', '10')))
     try:
         result = case['call']()
+    except _Timeout:
+        # the real function did not return: for a contract with a termination obligation this is the violation
+        return {'status': 'violated', 'violated': ['termination.timeout'], 'exception': None, 'clause_errors': {},
+                'observed': 'no result within %s s (runs without bound?)' % os.environ.get('PYVC_NATIVE_TIMEOUT', '10')}
     except Exception as err:        # noqa: the exception *is* the observation
         exc = type(err).__name__
         exc_text = repr(err)[:300]
+    finally:
+        signal.alarm(0)
     violated, errors = [], {}
     over = req.get('native_override', {})
     if exc is None:
